@@ -34,7 +34,8 @@ THEOREMS = ["Banyan.C04." + t for t in [
     "nsok_apply", "inv_at_cut", "acc_at_cut", "cut_decomposition", "crash_recovers_kill", "crash_recovers_power",
     "crash_recovers_prefix_partial", "crash_recovers_prefix", "crash_recovers_prefix_as_written",
     "crash_recovers_batches", "crash_recovers_published", "served_batches_of_acc", "recoverWith_treeOK",
-    "recoverWith_treeOK0",
+    "recoverWith_treeOK0", "crash_recovers_no_tmp", "no_tmp_after_recover", "openWrite_trunc",
+    "openWrite_keep_manifest_torn", "openWrite_keep_counterexample",
     "opSteps_split", "opPre_ends_with_publication", "pubDone_take_opPre", "pubDone_opPre",
     "recoverLegacy_leaves_stale_manifest", "recover_removes_stale_manifest",
     "recoverLegacy_leaves_tmp_manifest", "recover_removes_tmp_manifest"]] + ["Banyan.Tie.C04." + t for t in [
@@ -363,6 +364,8 @@ def gen_history(rng, maxb):
 DIRECTED = [
     ["B1", "F"],
     ["B1", "B2", "F"],
+    ["B1", "F", "B2", "B3", "F"],                              # crash in the 2nd publication leaves a 3-part tmp;
+                                                               # the second life republishes that epoch with 1 part
     ["B1", "F", "B2", "F", "M0,1"],
     ["B1", "F", "B2", "F", "B3", "M0,1", "B4", "F"],          # manifest lists memory parts 3; later flushed
     ["B1", "B2", "G", "B3", "B4", "G", "M0,1"],
@@ -556,16 +559,25 @@ def norm_go_rec(s):
         return ("PANIC",), None
     d = parse_dump(s[3:].split(" tree=")[0])
     tree_part = s.split(" tree=", 1)[1]
-    cont = None
+    cont = cont2 = None
     if " cont:" in tree_part:
         tree_part, c = tree_part.split(" cont:", 1)
-        cont = parse_dump(c)
+        if " cont2:" in c:
+            c, c2 = c.split(" cont2:", 1)
+            man = "-"
+            if " man=" in c2:
+                c2, man = c2.split(" man=", 1)
+            cont2 = {"dump": None if c2.split(" ", 1)[-1].startswith("PANIC") else parse_dump(c2), "raw": c2,
+                     "man": man.strip()}
+        cont = None if c.startswith("PANIC") else parse_dump(c)
+        if cont is None:
+            cont = {"parts": [], "rows": {}, "iterrows": 0, "epoch": None, "panic": c}
     fresh = " fresh=1 " in s + " "
     tree = sorted(abs_path(x.rstrip("/")) + ("/" if x.endswith("/") else "") for x in tree_part.split(",") if x)
     parts = tuple((pid, tuple(sorted(bs))) for pid, kind, bs, bad in d["parts"])
     epoch = None if fresh else d["epoch"]
     info = {"fresh": fresh, "epoch": epoch, "parts": d["parts"], "rows": d["rows"], "iterrows": d["iterrows"],
-            "tree": tree, "cont": cont}
+            "tree": tree, "cont": cont, "cont2": cont2}
     return ("OK", epoch, parts, tuple(tree)), info
 
 
@@ -611,6 +623,34 @@ def oracle(info, raw, acked, must_cover, label):
         return "recovered batches %s are not a prefix of the acknowledged batches %s" % (sorted(gs), acked)
     if not set(must_cover) <= gs:
         return "batches %s of the last published manifest are lost (recovered %s)" % (sorted(set(must_cover) - gs), sorted(gs))
+    if info["cont"] is not None:
+        c = info["cont"]
+        cb = sorted(b for pid, kind, bs, bad in c["parts"] for b in bs)
+        if cb != sorted(got + [99]) or any(c["rows"].get(b) != ROWS for b in cb):
+            return "the recovered table is not usable: after ingest+flush it serves %s" % cb
+    c2 = info.get("cont2")
+    if c2 is not None:
+        # second life: after recovery, ingest+flush, a merge of all file parts (a shorter manifest, possibly published
+        # over a stale `<epoch>.snp.tmp` of the crashed run), stop and start again
+        d2 = c2["dump"]
+        if d2 is None:
+            return "the second restart does not open: " + c2["raw"][:300]
+        cb2 = sorted(b for pid, kind, bs, bad in d2["parts"] for b in bs)
+        if cb2 != sorted(got + [99]) or any(d2["rows"].get(b) != ROWS for b in cb2):
+            return "after the second restart the table serves %s, acknowledged and published: %s" % (
+                cb2, sorted(got + [99]))
+        man = c2["man"]
+        if man == "-" or "=" not in man:
+            return "after the second restart there is no manifest"
+        name, hx = man.split("=", 1)
+        raw = b"" if hx == "-" else bytes.fromhex(hx)
+        try:
+            ids = sorted(int(x, 16) for x in json.loads(raw.decode("utf-8")))
+        except Exception:
+            return "the installed manifest %s does not parse: %r" % (name, raw[:200])
+        if ids != sorted(pid for pid, kind, bs, bad in d2["parts"]):
+            return "the installed manifest %s names parts %s, the snapshot has %s" % (
+                name, ids, sorted(pid for pid, kind, bs, bad in d2["parts"]))
     # leftovers
     want = []
     if info["parts"]:
@@ -627,11 +667,6 @@ def oracle(info, raw, acked, must_cover, label):
             # class F14: manifest files (`<epoch>.snp.tmp`, or a manifest older than the loaded one) survive startup
             return ("leftover", "initTSTable leaves manifest leftovers after startup cleanup: %s" % extra)
         return "leftovers after startup cleanup: %s" % extra
-    if info["cont"] is not None:
-        c = info["cont"]
-        cb = sorted(b for pid, kind, bs, bad in c["parts"] for b in bs)
-        if cb != sorted(got + [99]) or any(c["rows"].get(b) != ROWS for b in cb):
-            return "the recovered table is not usable: after ingest+flush it serves %s" % cb
     return None
 
 
@@ -675,6 +710,9 @@ def real_steps_with_tokens(segs, out_lines):
         for i, (mk, es) in enumerate(segs):
             for e in es:
                 if e[0] == "other":
+                    if e[1].startswith("O_CREAT without O_TRUNC"):
+                        continue   # flagged by the tie; the open itself is still recorded as a `create` event (on a
+                                   # name that does not exist the two are the same), so the trace can be explored
                     return None
                 if e[0] != "write":
                     steps.append((i, show_event(e)))
@@ -959,7 +997,12 @@ def eval_states(ctx, h, states, label, cont_every=7):
         d = os.path.join(ctx.scratch, "m%d_%s_%d" % (ctx.n, label, j))
         materialise(d, s["ns_real"], s["bytes"])
         s["dir"] = d
-        glines.append("rec %s%s" % (d, " cont" if j % cont_every == 0 else ""))
+        # continuation (ingest, flush, merge all, restart again): every `cont_every`-th state, and every state in
+        # which a crashed publication left a `<epoch>.snp.tmp` behind
+        stale_tmp = any(re.match(r"s\d+\.tmp=", x) for x in s["entries"])
+        if stale_tmp:
+            R.count("two-crash-continuations-over-stale-tmp")
+        glines.append("rec %s%s" % (d, " cont" if (j % cont_every == 0 or stale_tmp) else ""))
     gout = ctx.go_lines(glines)
     bad = 0
     for s, g in zip(todo, gout):
@@ -982,8 +1025,13 @@ def eval_states(ctx, h, states, label, cont_every=7):
                 R.count("known:" + KNOWN_LEFTOVER)
             else:
                 R.count("oracle-violations")
+                cls = re.sub(r"[^a-z ]", "", msg.lower())[:40].strip()
+                R.count("oracle:" + cls)
                 bad += 1
-                if sum(1 for x in R.violations if x["kind"] == "oracle") < 4:
+                # keep replays of every class of failure (the leftover class is frequent and would crowd out the rest)
+                same = sum(1 for x in R.violations if x["kind"] == "oracle" and
+                           re.sub(r"[^a-z ]", "", x["detail"].lower())[:40].strip() == cls)
+                if same < 2 and sum(1 for x in R.violations if x["kind"] == "oracle") < 8:
                     R.violation("oracle", msg, replay_obj(h, s))
         if gnorm == s["model"]:
             pass
